@@ -2,7 +2,7 @@
 a get-or-create table under `storage_lock_`, the protocol of Model/GetScopeLock.lean.  The facts of the source text that
 protocol stands on, re-extracted on every run:
    -> lean/OtelVerif/Gen/MeterRegLock.lean
-For each of Meter::RegisterSyncMetricStorage and Meter::RegisterAsyncMetricStorage: ONE lock guard on `storage_lock_`,
+For each of Meter::RegisterSyncMetricStorage, Meter::RegisterAsyncMetricStorage and Meter::Collect (which walks the table): ONE lock guard on `storage_lock_`,
 declared at the function's top brace level before the first use of `storage_registry_`, never released early."""
 import re
 import extract as X
@@ -17,7 +17,7 @@ def gen_meter_reg_lock(repo):
     txt = re.sub(r'(?m)^[ \t]*#.*$', '', X._strip_comments(X._read(repo, rel)))
     fns = dict(R.functions(txt, 'Meter'))
     before, held = True, True
-    for fn in ('RegisterSyncMetricStorage', 'RegisterAsyncMetricStorage'):
+    for fn in ('RegisterSyncMetricStorage', 'RegisterAsyncMetricStorage', 'Collect'):
         if fn not in fns:
             raise X.ExtractError(f'{rel}: Meter::{fn} not found')
         body = fns[fn]
@@ -33,7 +33,7 @@ def gen_meter_reg_lock(repo):
         held = held and len(guards) == 1 and not released
     b2l = lambda v: 'true' if v else 'false'
     return X.HDR + 'namespace Otel.Gen\n' + \
-        '/-- Meter::RegisterSyncMetricStorage / RegisterAsyncMetricStorage: a lock guard on `storage_lock_` is declared at the top brace level before the first use of `storage_registry_` -/\n' + \
+        '/-- Meter::RegisterSyncMetricStorage / RegisterAsyncMetricStorage / Collect: a lock guard on `storage_lock_` is declared at the top brace level before the first use of `storage_registry_` -/\n' + \
         f'def meterRegGuardBeforeFirstUse : Bool := {b2l(before)}\n' + \
         '/-- it is the only guard on `storage_lock_` in the function and nothing releases (or re-acquires) it before the return -/\n' + \
         f'def meterRegOneGuardHeldToReturn : Bool := {b2l(held)}\n' + 'end Otel.Gen\n'
